@@ -97,7 +97,7 @@ def strategy(tier: str):
     ops = st.lists(gen.with_ack(_line_strategy()).map(lambda line: ["rx", line]), min_size=5, max_size=25)
     return st.fixed_dictionaries(
         {
-            "version": gen.versions,
+            "version": gen.versions_any,
             "registry": _registry(),
             "ops": ops,
             "mode": st.sampled_from(("steps", "steps", "queue")),
